@@ -144,19 +144,32 @@ def c17_case(rng):
     seedkey = rng.random() < 0.5
     W = make_world(rng, seedkey, seeds=(lambda r: r.choice([1, 2, 0xBEEF, 0xFFFE, 0, SEED_KEY_FFFF, SEED_KEY_0000, r.randrange(1, 0xFFFF)])))
     bad, descs = [], []
+    rapid = rng.random() < 0.5          # the application issues the next call as soon as the previous one returned
     for _ in range(rng.choice([1, 1, 2, 3, 4])):
         t = Tx(rng, seedkey)
+        if rapid and rng.random() < 0.6:
+            t.count = max(t.count, -(-9 // t.osize))          # multi-packet transfers back to back in the same direction
+            t.count = min(t.count, 255 // t.osize)
+            t.mem = rand_bytes(rng, t.osize * t.count)
+            t.values = values_of(t.mem, t.osize, False)
         descs.append(t.desc())
         npc, nresp = len(W.nodes[1].proceed_calls), len(W.nodes[1].responses)
         r = run_tx(W, t, timeout=rng.choice([1, 2]))
-        W.settle()
-        bad += check_success(W, t, r, npc, nresp, seedkey)
-        bad += idle_check(W)
+        if rapid:
+            W.net.run(rng.choice([0, 0, 1000, 20000]))
+            bad += check_success(W, t, r, npc, nresp, seedkey)
+        else:
+            W.settle()
+            bad += check_success(W, t, r, npc, nresp, seedkey)
+            bad += idle_check(W)
+            if rng.random() < 0.5:
+                W.net.run(rng.choice([0, 1000, 300000]))
         if bad:
             break
-        if rng.random() < 0.5:
-            W.net.run(rng.choice([0, 1000, 300000]))
-    return bad, dict(seedkey=seedkey, txs=descs)
+    if not bad:
+        W.settle()
+        bad += idle_check(W)
+    return bad, dict(seedkey=seedkey, rapid=rapid, txs=descs)
 
 
 # ------------------------------------------------------------------------------------------------ C18
